@@ -223,12 +223,24 @@ class Session:
         a = self.atoms.get(key)
         if a is not None:
             return a, False
-        name = "@%s%d" % (kind, len(self.atoms))
+        # congruence up to polynomial normal form: arguments that are the same polynomial fraction written differently
+        # (different association / order of the same arithmetic) denote the same atom
+        kn = z3.simplify(arg.n, som=True)
+        kd = z3.simplify(arg.d, som=True)
+        key2 = (kind, "nf", kn.get_id(), kd.get_id(), extra)
+        a = self.atoms.get(key2)
+        if a is not None:
+            self.atoms[key] = a
+            self._keep = getattr(self, "_keep", [])
+            self._keep.append(t)
+            return a, False
+        name = "@%s%d" % (kind, len(self.atom_names))
         a = Atom(name, kind, arg, extra, z3.Real(name))
         self.atoms[key] = a
+        self.atoms[key2] = a
         self.atom_names[name] = a
         self._keep = getattr(self, "_keep", [])
-        self._keep.append(t)        # keep the argument term alive so its AST id is not reused
+        self._keep.extend([t, kn, kd])        # keep the argument terms alive so their AST ids are not reused
         return a, True
 
     def atom_of(self, e):
@@ -561,7 +573,16 @@ class B:
             return False
         ex = SESSION.explorer
         if ex is None:
-            raise RuntimeError("symbolic branch outside an Explorer run")
+            # no path exploration active: the comparison must be decided by the preconditions alone
+            for val, lit in ((True, c), (False, z3.Not(c))):
+                sv = z3.Solver()
+                sv.set("timeout", 5000)
+                sv.add(*SESSION.pre)
+                sv.add(*SESSION.relevant_axioms([c] + list(SESSION.pre)))
+                sv.add(z3.Not(lit))
+                if sv.check() == z3.unsat:
+                    return val
+            raise RuntimeError("symbolic branch outside an Explorer run: %s is not decided by the preconditions" % c)
         return ex.decide(c, self.l, self.r)
 
     def _s(self):
